@@ -109,4 +109,44 @@ theorem liouvillian_adjoint_commute (H : Matrix n n ℂ) (hH : H.IsHermitian) (c
       rw [this]
       abel
 
+/-! ### the dissipator with a counting field and with two different operators -/
+
+/-- `lindblad_dissipator(a, b, chi)` as an operator expression: `z a X b† − ½ a†b X − ½ X a†b`, `z = e^{iχ}` -/
+noncomputable def dissChi (z : ℂ) (a b : Matrix n n ℂ) (X : Matrix n n ℂ) : Matrix n n ℂ :=
+  z • (a * X * bᴴ) - (1 / 2 : ℂ) • (aᴴ * b * X) - (1 / 2 : ℂ) • (X * (aᴴ * b))
+
+/-- the superoperator assembled by `lindblad_dissipator` -/
+noncomputable def dissChiS (z : ℂ) (a b : Matrix n n ℂ) : Matrix (n × n) (n × n) ℂ :=
+  z • sprepostS a bᴴ - (1 / 2 : ℂ) • spreS (aᴴ * b) - (1 / 2 : ℂ) • spostS (aᴴ * b)
+
+/-- **`lindblad_dissipator(a, b, chi)` acts on a column-stacked operator as the operator expression** — the counting
+field multiplies the jump term and nothing else -/
+theorem dissipator_chi_vec (z : ℂ) (a b X : Matrix n n ℂ) : dissChiS z a b *ᵥ vec X = vec (dissChi z a b X) := by
+  unfold dissChiS dissChi
+  rw [sub_mulVec, sub_mulVec, smul_mulVec, smul_mulVec, smul_mulVec, sprepost_vec, spre_vec, spost_vec,
+    vec_sub, vec_sub, vec_smul, vec_smul, vec_smul]
+
+/-- with a counting field the generator no longer conserves the trace: it changes by `(z − 1) tr(a X a†)` — and it
+does conserve it for `z = 1` -/
+theorem dissipator_chi_trace (z : ℂ) (a X : Matrix n n ℂ) :
+    (dissChi z a a X).trace = (z - 1) * (a * X * aᴴ).trace := by
+  unfold dissChi
+  rw [trace_sub, trace_sub, trace_smul, trace_smul, trace_smul]
+  have h1 : (aᴴ * a * X).trace = (a * X * aᴴ).trace := by
+    rw [trace_mul_comm (a * X) aᴴ, Matrix.mul_assoc]
+  have h2 : (X * (aᴴ * a)).trace = (a * X * aᴴ).trace := by rw [trace_mul_comm, h1]
+  rw [h1, h2]
+  simp only [smul_eq_mul]
+  ring
+
+/-- the dissipator of a Hermitian operator with a counting field is a Hermiticity-preserving map only for a real
+factor: `D(X)† = D̄(X†)` with the conjugate factor -/
+theorem dissipator_chi_adjoint (z : ℂ) (a X : Matrix n n ℂ) :
+    (dissChi z a a X)ᴴ = dissChi (star z) a a Xᴴ := by
+  unfold dissChi
+  simp only [conjTranspose_sub, conjTranspose_smul, conjTranspose_mul, conjTranspose_conjTranspose, Matrix.mul_assoc]
+  have : star (1 / 2 : ℂ) = 1 / 2 := by simp
+  rw [this]
+  abel
+
 end Qv.C07
